@@ -35,6 +35,12 @@ T = {
     "C15": (True, "exploration", "analytic steady state (numpy.linalg.solve) vs reported state and flux balance; unambiguous no-steady-state networks must yield a failure value",
             "Stable linear networks x initial values x tolerances x norm modes through Simulator and scan.steady_state; linear growth, accumulation, exponential growth and undamped oscillators must be reported as failure.",
             "Trusted: analytic solution; bound 10*tol+1e-4*scale on success; failure is accepted for networks that have a steady state."),
+    "C05": (True, "exploration", "independent reference expansion (from the statement) vs LabelMapper.build_model structure, initial totals/placement, and the summed-derivative identity at random isotopomer states",
+            "Generated base networks x label counts x maps x initial_labels; reaction count per mapped reaction, every isotopomer stoichiometry, initial totals and label placement, sum of isotopomer derivatives = base derivative at totals, short maps rejected.",
+            "Trusted: 40-line reference expansion in checks/c05_labels.py; mapped reactions irreversible mass action."),
+    "C16": (True, "exploration", "differential monitor: LinearLabelMapper derivative vs positional-enrichment derivative of the LabelMapper isotopomer model at a constructed metabolic steady state; inverse-map ablation twin for attribution",
+            "Networks steady by construction x bijective maps x random isotopomer distributions; stationarity of uniform enrichment = EXT and absence of label without a source. One open known finding (map direction) attributed by the inverse-map twin.",
+            "Trusted: LabelMapper (C05), documented reading of maps. Maps restricted to bijections on positions."),
 }
 PENDING_REASON = "check not built yet in this session (work in progress; design in DESIGN.md section 4)"
 
